@@ -8,7 +8,8 @@
    second group gives the fuel bound. *)
 From PV Require Import Base.Prelude Spec.LuaLex Instances.HoldsC01 Generated.T_files_build Model.ReqEmbed
   Model.ReqEmbedInst Proofs.ReqEmbedProofs Proofs.ReqEmbedInstProofs Proofs.SpecLexChunk Proofs.ReqEmbedSpecTokens
-  Instances.HoldsC06 Proofs.LexerChunk Proofs.ReqEmbedEchoGood.
+  Instances.HoldsC06 Proofs.LexerChunk Proofs.ReqEmbedEchoGood Proofs.LexerChunkNl Proofs.ReqEmbedSepNl Proofs.SpecLexCut Proofs.StripRelex Proofs.ReqEmbedStrip.
+From PV Require Spec.RequireSpec.
 
 Section Abstract.
 Variable P : Type.
@@ -330,6 +331,90 @@ Theorem C14_pkg_conditions_unstripped : forall c q,
   (echo_lines q = [] \/ ends_lf (last (echo_lines q) [])).
 Proof. exact unstripped_pkg_ok. Qed.
 
+(* RESIDUAL (1) REMOVED (Proofs/LexerChunkNl.v, Proofs/ReqEmbedSepNl.v).  The token-level clause WITHOUT the
+   condition that the last echoed line of an entry ends in LF: [pkg_shape_nl e] only says that the header line and
+   the echoed lines are bytes and that the echoed lines - all but the last - end in LF.  When the last line has no
+   newline build.py inserts a separate one-byte newline line before `end`; the lexer model reads that line list
+   exactly as it reads the concatenated text (chunk_ok_sep_dialect: after a text of the dialect, at whose end the
+   lexer is back in its Normal state and which cannot end in a carriage return, a line feed may come as a chunk of
+   its own), so the tokens are the same: header + echoed package + `end` per entry. *)
+Theorem C14_tokens_spec_any_newline :
+  forall cwd fs lua_path fuel main_path main_content out,
+  build_code_now cwd fs lua_path fuel main_path main_content = Ok out ->
+  exists r pk, build_lua_now cwd fs lua_path fuel main_path main_content = Ok (r, pk) /\
+    let toks := toks (Z * list Z * Z * Z * Z) sig_views in
+    let lexes := lexes (Z * list Z * Z * Z * Z) sig_views in
+    (lexes main_content -> Forall byte main_content ->
+     Forall (fun e => lexes (header_line_now (fst e)) /\ lexes (concat (echo_lines (snd e))) /\ pkg_shape_nl e) pk ->
+     sig_views out = Some match pk with
+                          | [] => toks main_content
+                          | _ => concat (map toks require_lua_preamble_package)
+                                 ++ concat (map (fun e => toks (header_line_now (fst e))
+                                                          ++ toks (concat (echo_lines (snd e))) ++ toks end_line_now) pk)
+                                 ++ concat (map toks require_lua_preamble_require) ++ toks main_content
+                          end).
+Proof. exact build_code_tokens_nl. Qed.
+
+(* ... and the per-entry conditions are theorems for a package embedded with its game loop from ANY byte file of
+   the dialect, with or without a final newline; its echoed code has exactly the file's tokens *)
+Theorem C14_pkg_conditions_unstripped_any_newline : forall c q,
+  Forall byte c -> lexes (Z * list Z * Z * Z * Z) sig_views c ->
+  from_lines (file_lines c) = Ok q ->
+  lexes (Z * list Z * Z * Z * Z) sig_views (concat (echo_lines q)) /\
+  toks (Z * list Z * Z * Z * Z) sig_views (concat (echo_lines q)) = toks (Z * list Z * Z * Z * Z) sig_views c /\
+  good_lines (echo_lines q).
+Proof. exact unstripped_pkg_ok_nl. Qed.
+
+(* the lexer-stack fact behind it, for the line list handed to the final parse: lexing it line by line reaches the
+   same lexer state (tokens, positions) as lexing the concatenated text *)
+Theorem C14_prepended_lines_chunking : forall m pk,
+  Forall (fun e => lexes (Z * list Z * Z * Z * Z) sig_views (header_line_now (fst e)) /\
+                   lexes (Z * list Z * Z * Z * Z) sig_views (concat (echo_lines (snd e))) /\
+                   Forall byte (header_line_now (fst e)) /\ good_lines (echo_lines (snd e))) pk ->
+  good_lines (echo_lines m) ->
+  let ls := prepend_lines lua echo_lines require_lua_preamble_package require_lua_preamble_require
+                          header_line_now end_line_now nl_line_now m pk in
+  Forall byte (concat ls) /\ Model.Lexer.model_lex ls = Model.Lexer.model_lex [concat ls].
+Proof.
+  exact (fun m pk Hpk Hm => match prepend_good_nl m pk Hpk Hm with conj HB Hc => conj HB (chunk_ok_model_lex _ Hc) end).
+Qed.
+
+(* RESIDUAL (2), the lexer-stack half (Proofs/SpecLexCut.v, StripRelex.v, ReqEmbedStrip.v).  A package embedded
+   WITHOUT its game loop: strip_lua removes the token ranges of the game-loop statements (last one first, each
+   replaced by one space token), writes the codes out and lexes + parses the text again.
+   C14_strip_lexical - pure reference grammar + Token.code: for a source of the dialect with reference tokens ss, if
+   runs of whole tokens (each non-empty, below the previous one, starting at a word token: ranges_ok) are replaced
+   by a space, the concatenated codes are a text of the dialect whose significant token views are exactly those of
+   the tokens outside the runs.
+   C14_stripped_pkg_partial - for the concrete stack: the re-lexed package has these views and its echoed lines are
+   bytes ending in LF (the per-entry conditions of C14_tokens_spec_any_newline), relative to ranges_ok of the ranges
+   strip_stats actually cuts (strip_ranges).  C14_stripped_pkg_spec_partial: with the second half of what the parser
+   owes - the tokens outside the ranges are those Spec/RequireSpec.spec_strip keeps - the package's tokens are the
+   file's tokens minus the top-level game-loop definitions.  Both hypotheses are statements about the parser's
+   statement ranges (not provable from C08_leaves / C08_ranges: see notes/C14.md). *)
+Theorem C14_strip_lexical : forall src ss0 ranges, Forall byte src -> spec_lex src = Some ss0 ->
+  let ss := map unpos ss0 in
+  ranges_ok (map recode ss) (length ss) ranges ->
+  sig_views (concat (cuts [32] (map LexerView.spec_code ss) ranges)) = Some (map tview (nontriv (drops ss ranges))).
+Proof. exact cuts_sig_views. Qed.
+
+Theorem C14_stripped_pkg_partial : forall c ss0 q q' ranges,
+  Forall byte c -> spec_lex c = Some ss0 -> from_lines (file_lines c) = Ok q -> strip_lua q = Ok q' ->
+  strip_ranges (rev' (root_stats (l_root q))) (l_toks q) = Ok ranges ->
+  ranges_ok (map recode (map unpos ss0)) (length (map unpos ss0)) ranges ->
+  sig_views (concat (echo_lines q')) = Some (map tview (nontriv (drops (map unpos ss0) ranges))) /\
+  good_lines (echo_lines q').
+Proof. exact stripped_pkg. Qed.
+
+Theorem C14_stripped_pkg_spec_partial : forall c ss0 q q' ranges,
+  Forall byte c -> spec_lex c = Some ss0 -> from_lines (file_lines c) = Ok q -> strip_lua q = Ok q' ->
+  strip_ranges (rev' (root_stats (l_root q))) (l_toks q) = Ok ranges ->
+  ranges_ok (map recode (map unpos ss0)) (length (map unpos ss0)) ranges ->
+  nontriv (drops (map unpos ss0) ranges) = RequireSpec.spec_strip (nontriv (map unpos ss0)) ->
+  sig_views (concat (echo_lines q')) = Some (map tview (RequireSpec.spec_strip (nontriv (map unpos ss0)))) /\
+  good_lines (echo_lines q').
+Proof. exact stripped_pkg_spec. Qed.
+
 (* the stripping step of the concrete model, before the text is lexed again: whatever statements of
    the tree are taken for game loop functions and wherever their token ranges lie, the significant
    tokens that remain are a subsequence of the file's significant tokens - stripping removes, it never
@@ -360,6 +445,12 @@ Print Assumptions C14_tokens_spec.
 Print Assumptions C14_pkg_conditions_unstripped.
 Print Assumptions C14_echo_predicate_suffices.
 Print Assumptions C14_echo_views.
+Print Assumptions C14_tokens_spec_any_newline.
+Print Assumptions C14_pkg_conditions_unstripped_any_newline.
+Print Assumptions C14_prepended_lines_chunking.
+Print Assumptions C14_strip_lexical.
+Print Assumptions C14_stripped_pkg_partial.
+Print Assumptions C14_stripped_pkg_spec_partial.
 
 (* non-vacuity: a main program and two packages that require each other (a cycle), one game loop
    function each, one package without a final newline; the build succeeds, embeds each package once
@@ -409,3 +500,52 @@ Proof. vm_compute. reflexivity. Qed.
 Example C14_example_bad_arguments :
   run_build "/sb"%bs ex_fs "?;?.lua"%bs "main.lua"%bs "x=require(""a"",{use_game_loop=true},3)"%bs = Err BuildError.
 Proof. vm_compute. reflexivity. Qed.
+
+(* non-vacuity of the any-newline theorems: a package file without a final newline; its echoed lines end with a
+   line that has no newline (so C14_pkg_conditions_unstripped / C14_tokens_spec do not apply), the block built
+   for it contains the separate newline line, is NOT a list of LF-terminated lines, and yet lexes - line by
+   line - to the same tokens as its concatenation *)
+Definition ex_nonl : bytes := "x=1
+return x"%bs.
+Example C14_example_no_final_newline :
+  match from_lines (file_lines ex_nonl) with
+  | Ok q =>
+    let blk := block lua echo_lines header_line_now end_line_now nl_line_now ("a"%bs : bytes, q) in
+    echo_lines q = ["x=1
+"%bs : bytes; "return x"%bs : bytes] /\
+    blk = ["package._c[""a""]=function()
+"%bs : bytes; "x=1
+"%bs : bytes; "return x"%bs : bytes; [10]; "end
+"%bs : bytes] /\
+    forallb ends_with_nl (removelast blk) = false /\
+    Model.Lexer.model_lex blk = Model.Lexer.model_lex [concat blk] /\
+    (match Model.Lexer.model_lex blk with Ok ts => Nat.ltb 10 (length ts) | Err _ => false end) = true /\
+    sig_views (concat (echo_lines q)) = sig_views ex_nonl /\ sig_views ex_nonl <> None
+  | Err _ => False
+  end.
+Proof. vm_compute. repeat split; try reflexivity. discriminate. Qed.
+
+(* non-vacuity of the stripped-package theorems: a package with two game-loop functions (one directly after white
+   space on a line of its own, one after code on the same line), a look-alike that stays, no final newline: both
+   hypotheses about the ranges hold (decided by computation), the re-lexed text is as expected *)
+Definition ex_strip : bytes := "function _init() x=1 end
+y=2  function _draw()
+ if (y) then y=3 end
+end local function _init() end
+return y"%bs.
+Example C14_example_stripped :
+  match spec_lex ex_strip, from_lines (file_lines ex_strip) with
+  | Some ss0, Ok q =>
+    match strip_lua q, strip_ranges (rev' (root_stats (l_root q))) (l_toks q) with
+    | Ok q', Ok ranges =>
+      ranges = [(16, 38); (0, 11)]%nat /\
+      ranges_okb (map recode (map unpos ss0)) (length (map unpos ss0)) ranges = true /\
+      nontriv (drops (map unpos ss0) ranges) = RequireSpec.spec_strip (nontriv (map unpos ss0)) /\
+      concat (echo_lines q') = " 
+y=2    local function _init() end
+return y"%bs
+    | _, _ => False
+    end
+  | _, _ => False
+  end.
+Proof. vm_compute. repeat split; reflexivity. Qed.
